@@ -64,3 +64,25 @@ def pts_close(a, b, rel=1e-9):
             if abs(x - y) > rel * (1.0 + abs(y)):
                 return False
     return True
+
+
+KNOT_TOL = 1e-15  # the normalising knot-vector setters round to 18 decimals (documented precision)
+
+
+def kv_close(a, b, tol=KNOT_TOL):
+    return len(a) == len(b) and all(abs(x - y) <= tol * max(1.0, abs(y)) for x, y in zip(a, b))
+
+
+def kv_plus(kv, u, c):
+    return sorted(list(kv) + [u] * c)
+
+
+def kv_minus(kv, u, c):
+    """kv with the c entries closest to u removed (they must be within 1e-12 of u)."""
+    out = list(kv)
+    for _ in range(c):
+        i = min(range(len(out)), key=lambda j: abs(out[j] - u))
+        if abs(out[i] - u) > 1e-12:
+            return None
+        out.pop(i)
+    return out
